@@ -145,6 +145,19 @@ function genSem(rng, params) {
     const r = rng.below(5);
     const b = r === 0 ? rng.pick(ms) : r === 1 ? mutateTy(rng, rng.pick(ms), sc) : r === 2 ? [A("union"), rng.pick(ms), rng.pick(ms)] : r === 3 ? genLeaf(rng) : genSubTy(rng, 1, sc);
     expr = [A("exclude"), a, b]; text = `Exclude<${tsOf(a)}, ${tsOf(b)}>`; types = [a, b];
+    if (rng.chance(1, 8)) {
+      // an object type with a property over a small union against the union of the object types that split that property
+      // (`{ ok: boolean }` against `{ ok: true } | { ok: false }`): covered only by all the members together
+      const doms = [[lit("b", A("true")), lit("b", A("false"))], [lit("s", "a"), lit("s", "b")], [lit("n", "1"), lit("n", "2")]];
+      const dom = rng.pick(doms), k = rng.pick(KEYS);
+      const other = rng.chance(1, 2) ? [["n", A("false"), A("number")]] : [];
+      const whole = dom === doms[0] && rng.chance(1, 2) ? A("boolean") : [A("union"), ...dom];
+      const mkO = (t) => [A("obj"), [[k, A("false"), t], ...other], A("none")];
+      const objWhole = mkO(whole), parts = dom.map(mkO);
+      const a2 = rng.chance(1, 2) ? objWhole : [A("union"), objWhole, genLeaf(rng)];
+      const b2 = rng.chance(2, 3) ? [A("union"), ...parts] : rng.chance(1, 2) ? parts[0] : [A("union"), parts[0], genLeaf(rng)];
+      expr = [A("exclude"), a2, b2]; text = `Exclude<${tsOf(a2)}, ${tsOf(b2)}>`; types = [a2, b2, ...parts];
+    }
   } else if (kind === 1) { // keyof
     const objNames = decls.filter((d) => head(d[3]) === "obj").map((d) => d[1]);
     const objs = Array.from({ length: 1 + rng.below(3) }, () => (objNames.length && rng.chance(1, 4) ? [A("ref"), rng.pick(objNames)] : genObj(rng, 1, sc)));
